@@ -62,7 +62,7 @@ def extra_edits(rng, wt, names, log):
     """0..2 composite edits the properties name explicitly; each is legal on the current tree."""
     for _ in range(rng.choice([0, 1, 1, 2])):
         k = rng.choice(["rename+edit", "rename+edit", "binary", "retarget", "emptydir", "dirrename+edit", "dirrename+edit", "truncate",
-                        "exec+edit", "newbinary"])
+                        "exec+edit", "newbinary", "dirrename+dropchild", "dirrename+dropchild"])
         try:
             _extra(rng, wt, names, k, log)
         except Exception as e:  # refused by breezy (e.g. path taken): not judged here
@@ -144,6 +144,29 @@ def _extra(rng, wt, names, k, log):
         kid = dst + rng.choice(kids)[len(d):]
         gen._write(os.path.join(base, kid), gen.edit_content(rng, st[rng.choice(kids)][1] or b""))
         log.append({"extra": k, "src": d, "dst": dst, "edited": kid})
+    elif k == "dirrename+dropchild":
+        # a directory is renamed and, in the same revision, loses a child (removed or moved out of it)
+        st = snap_tree(wt)
+        dirs = sorted(p for p, v in st.items() if v[0] == "directory" and
+                      sum(1 for q in st if q.startswith(p + "/") and "/" not in q[len(p) + 1:]) >= 2)
+        if not dirs:
+            return
+        d = rng.choice(dirs)
+        dst = _free_path(rng, wt, names, st)
+        if dst is None or dst.startswith(d + "/") or dst.count("/") + 1 + max(q.count("/") - d.count("/") for q in st if q.startswith(d + "/")) > names.maxdepth + 1:
+            return
+        kids = sorted(q for q in st if q.startswith(d + "/") and "/" not in q[len(d) + 1:])
+        kid = rng.choice(kids)
+        wt.rename_one(d, dst)
+        moved = dst + kid[len(d):]
+        out = None
+        if rng.random() < 0.5:
+            out = _free_path(rng, wt, names)
+        if out is not None and not out.startswith(dst + "/") and out.count("/") + 1 + (max([q.count("/") - kid.count("/") for q in st if q.startswith(kid + "/")] or [0])) <= names.maxdepth:
+            wt.rename_one(moved, out)
+        else:
+            wt.remove([moved], keep_files=False, force=True)
+        log.append({"extra": k, "src": d, "dst": dst, "child": kid, "to": out})
     elif k == "truncate" and files:
         p = rng.choice(files)
         gen._write(os.path.join(base, p), b"")
